@@ -361,6 +361,7 @@ type hsScript struct {
 	stallFor    time.Duration
 	extras      []string // after the handshake: extra CEAs
 	nAppAfter   int
+	dwrStall    bool // instead of a CEA the peer sends a DWR and then stops reading: the client's DWA write blocks for good
 }
 
 func drawHsScript(w *smcWorld) hsScript {
@@ -406,6 +407,10 @@ func drawHsScript(w *smcWorld) hsScript {
 		s.extras = append(s.extras, []string{"dup-success", "failed", "success-no-sharing", "no-result-code"}[t.Draw(4)])
 	}
 	s.nAppAfter = t.Range(0, 3)
+	if w.R == 0 && !w.watchdog && t.Chance(1, 8) {
+		// (only without retransmissions: a second CER would queue behind the blocked DWA write)
+		s = hsScript{answerCER: 0, ceaKind: "success", delayClass: "never", dwrStall: true, stallFor: 1000 * w.I}
+	}
 	return s
 }
 
@@ -441,6 +446,10 @@ func smcHandshake(w *smcWorld, s hsScript) bool {
 				continue
 			}
 			w.advance(s.stallFor - (w.now() - stalledSince))
+			if w.stuck {
+				e.Fail("C12/dial-never-returns/close-blocked", "the dial's budget ran out at %v while a write of the same connection was blocked in the transport: NewConn has not returned (a goroutine waits on a library lock, fake time cannot advance)", w.now())
+				return false
+			}
 			continue
 		}
 		for _, o := range w.collect() {
@@ -474,6 +483,14 @@ func smcHandshake(w *smcWorld, s hsScript) bool {
 				}
 				if nCER+1 == s.stallCER {
 					w.sc.ArmWriteFault(&WriteFault{Kind: "stall", After: 11})
+				}
+				if s.dwrStall && nCER == 1 {
+					e.TrustWait = false // a goroutine is held in a transport write while the dial's deadline passes
+					w.sc.ArmWriteFault(&WriteFault{Kind: "stall", After: 9})
+					req := RefMsg{Cmd: cmdDW, Flags: 0x80, HbH: 0x71000000, E2E: 0x71000001, AVPs: identAVPs("srv.peer.example", "peer.example", true, true)}
+					w.schedule(w.I/4, req.Bytes(), "peer-dwr")
+					e.Fault("peer-dwr-instead-of-cea")
+					e.Probe("dwa-write-blocked-during-handshake")
 				}
 			}
 		}
@@ -1357,7 +1374,7 @@ func c10Client(e *Env) {
 	w := newSmcWorld(e, false)
 	defer w.teardown()
 	s := drawHsScript(w)
-	s.stallCER, s.disconnect = 0, ""
+	s.stallCER, s.disconnect, s.dwrStall, s.stallFor = 0, "", false, 0
 	s.answerCER = 1
 	if t.Chance(3, 4) {
 		s.ceaKind = []string{"success", "success-vs"}[t.Draw(2)]
